@@ -30,13 +30,16 @@ POOL = {
     "sim": "def sim(x: Qint[2]) -> Qint[2]:\n    return x & 1",
     "const": "def cst(a: Qint[2]) -> bool:\n    return True",
     "caller": "def caller(a: Qint[2], b: Qint[2]) -> Qint[2]:\n    return inc(a) + b",
+    # names that are also attributes of qiskit's QuantumCircuit (the gate export avoids shadowing them)
+    "swap": "def swap(a: bool, b: bool) -> bool:\n    return a and not b",
+    "reset": "def reset(a: Qint[2]) -> bool:\n    return a == 3",
 }
-PRED2 = ["eq2", "oracle", "types", "sec"]          # Qint[2] -> bool
-BOOL2 = ["and", "if", "ast2ast", "f"]               # (bool, bool) -> bool
+PRED2 = ["eq2", "oracle", "types", "sec", "reset"]          # Qint[2] -> bool
+BOOL2 = ["and", "if", "ast2ast", "f", "swap"]               # (bool, bool) -> bool
 ANYQF = PRED2 + BOOL2 + ["inc", "copy", "sim", "const"]
 
 OPS = ["compile", "compile_fast", "bind", "bindl", "compose", "oraclize", "grover", "grover_el", "dj", "bv", "simon",
-       "qasm", "qiskit", "sympy", "decompile", "decopt", "truth_table", "recompile", "logicfun", "repr"]
+       "qasm", "qiskit", "gate", "sympy", "decompile", "decopt", "truth_table", "recompile", "logicfun", "repr"]
 
 
 def fp_circuit(qc):
@@ -137,6 +140,9 @@ class World:
         if kind == "qiskit":
             qc = self.get(key).export("qiskit")
             return [(i.operation.name, tuple(qc.find_bit(q).index for q in i.qubits)) for i in qc.data]
+        if kind == "gate":
+            g = self.get(key).gate("qiskit")
+            return (g.name, g.num_qubits)
         if kind == "sympy":
             return str(self.get(key).export("sympy"))
         if kind == "decompile":
@@ -183,13 +189,16 @@ def random_op(rng):
     if kind == "grover":
         return (kind, rng.choice(PRED2))
     if kind == "grover_el":
-        return rng.choice([(kind, "inc", 2), (kind, "copy", 3), (kind, "sim", 1)])
+        return rng.choice([(kind, "inc", 2), (kind, "copy", 3), (kind, "sim", 1), (kind, "oracle", True), (kind, "eq2", True),
+                           (kind, "types", False), (kind, "reset", True)])
     if kind in ("dj", "bv"):
         return (kind, rng.choice(PRED2 + ["const"]))
     if kind == "simon":
         return (kind, rng.choice(["sim", "inc", "copy"]))
     if kind == "recompile":
         return (kind, rng.choice(ANYQF))
+    if kind == "gate":
+        return (kind, rng.choice(["copy", "swap", "reset", "copy", "swap", "reset"] + ANYQF))
     return (kind, rng.choice(ANYQF + ["caller"]))
 
 
@@ -299,6 +308,9 @@ def fixed_histories():
         [("dj", "sec"), ("bv", "sec"), ("grover", "sec"), ("simon", "sim"), ("qiskit", "sec"), ("qiskit", "sim")],
         [("grover_el", "inc", 2), ("grover_el", "inc", 2), ("compose", "caller"), ("simon", "inc")],
         [("recompile", "eq2"), ("grover", "eq2"), ("recompile", "eq2"), ("qasm", "eq2")],
+        [("grover_el", "oracle", True), ("qasm", "oracle"), ("grover_el", "oracle", True), ("grover", "oracle")],
+        [("qasm", "copy"), ("gate", "copy"), ("qasm", "copy"), ("gate", "copy"), ("gate", "swap"), ("qasm", "swap"), ("repr", "swap")],
+        [("gate", "reset"), ("grover_el", "reset", True), ("qasm", "reset"), ("gate", "reset")],
         [("compile_fast", "if"), ("compile", "if"), ("compile_fast", "if"), ("truth_table", "if")],
         [("sympy", "and"), ("qiskit", "and"), ("qasm", "and"), ("decopt", "and"), ("sympy", "and")],
     ]
